@@ -5,7 +5,7 @@ cd "$(dirname "$0")/.."
 rc=0
 for sd in ${SEEDS:-1 2 3 20261004}; do
   for c in ${CHECKS:-c01 c06 c08 c09 c10}; do
-    out=$(VERIF_SEED=$sd timeout 900 /venv/bin/python -m checks.$c --tier quick --no-evidence 2>&1)
+    out=$(VERIF_SEED=$sd timeout 3000 /venv/bin/python -m checks.$c --tier quick --no-evidence --budget 3000 2>&1)
     code=$?
     line=$(echo "$out" | grep " quick: runs=" | tail -1 | cut -c1-170)
     echo "seed=$sd $line exit=$code"
